@@ -50,6 +50,32 @@ def check(pid, engine, category, text, note, technique, design_ref, thorough=Tru
         CHECKS[pid]["thorough_cmd"] = f"timeout 7000 ./check {pid} --tier thorough"
 
 
+check("C07", "immut+hypothesis", "exploration",
+      "Hypothesis generates and shrinks programs of 2-14 steps: construct a field by every public constructor from a "
+      "tracked source array (fresh / view / non-contiguous / 0-d / complex / Fortran-ordered), derive fields, take handles "
+      "(val, raw, asnumpy, val.val, slices, views, reshape, T, real, to_dict, writable copies), build dependent operators "
+      "(makeOp, Adder, GaussianEnergy, inverse) and WRITE at arbitrary instants through the source array or any handle "
+      "(item/slice assignment, +=, *=, ufunc out=, fill, sort, put, flat, copyto, AnyArray in-place). After every step "
+      "every live field must equal its construction-time byte snapshot (taken by a non-perturbing read) and every operator "
+      "must still give snapshot-consistent results; a write may only succeed on a documented copy.",
+      "Not generated because outside the statement: re-enabling flags.writeable by hand, writing through another alias of "
+      "the same memory (the base of a view that was passed in). CPU arrays only.",
+      "deterministic simulation of an adversarial aliasing writer acting at arbitrary points of a construction history (Hypothesis-generated, snapshot reference model)",
+      "DESIGN.md 3.6")
+
+check("C21", "repro", "exploration",
+      "(a) classic MGVI/geoVI/MAP runs, a JAX VI run and raw draw sequences are executed in fresh interpreters under "
+      "different PYTHONHASHSEED values and twice in one process with unrelated work in between: all result components must "
+      "be bit-identical; (b) the same JAX VI problem runs under every legal residual_map x kl_map x jit x minimizer-jit "
+      "combination (32 variants): positions and samples must agree to 1e-6 x scale; (c) Hypothesis generates programs over "
+      "nifty.cl.random (nested Context, push/pop, spawn, four kinds of draws, exceptions raised at arbitrary statements and "
+      "caught at arbitrary levels) that run against the real module and a model interpreter holding its own stack of "
+      "independent generators: event traces, stack depths and generator identity after every scope must agree.",
+      "Only the hash seed of a fresh process is controllable (addresses/cache state vary uncontrolled); native thread pools "
+      "in XLA/ducc/BLAS are not schedulable; kl_map='lmap' is only legal without JIT (eager loop map).",
+      "deterministic simulation: fresh-process/hash-seed perturbation, execution-strategy switching, Hypothesis-generated RNG-context programs with injected exceptions vs a reference interpreter",
+      "DESIGN.md 3.7")
+
 check("C22", "mpisim", "exploration",
       "Scripts exercising sample lists (W1), SampledKLEnergy MGVI/geoVI with constants/point estimates/mirroring (W2), "
       "StochasticEnergyAdapter (W3) and full optimize_kl runs incl. output directory on a simulated disk (W4) are executed "
